@@ -211,6 +211,36 @@ def rewritten_input_results(doc, listing1, listing2):
     return out
 
 
+def stream_sequence(steps):
+    """steps = [(rule doc, listing text)]: every step is one complete operation (a new MasterOfPuppets) in THIS process; the
+    listing lives at ONE path, which is rewritten in place (mtime preserved) when a step's text differs from what is stored.
+    -> the instruction stream of every step"""
+    from jasm.global_definitions import InputFileType, MatchConfig, MatchingReturnMode, MatchingSearchMode
+    from jasm.match import MasterOfPuppets
+
+    out = []
+    with scratch() as d:
+        a = os.path.join(d, "in.s")
+        stored, st = None, None
+        for k, (doc, text) in enumerate(steps):
+            p = os.path.join(d, f"rule{k}.yaml")
+            with open(p, "w") as f:
+                yaml.safe_dump(doc, f, sort_keys=False)
+            if text != stored:
+                with open(a, "w") as f:
+                    f.write(text)
+                if st is not None:
+                    os.utime(a, (st.st_atime, st.st_mtime))
+                st, stored = os.stat(a), text
+            cfg = MatchConfig(pattern_pathstr=p, input_file=a, input_file_type=InputFileType.assembly,
+                              return_mode=MatchingReturnMode.all_instructions_string, matching_mode=MatchingSearchMode.all_finds)
+            try:
+                out.append(MasterOfPuppets(cfg).perform_matching())
+            except Exception as e:
+                out.append(f"<raised {type(e).__name__}: {e}>")
+    return out
+
+
 def constructed_first_results(docs, listing_text, ret="list"):
     """All MasterOfPuppets objects are CONSTRUCTED first (rule files read, rules compiled or not - that is the object's
     business), only then each is run, in order; the first object is finally run a second time.
